@@ -179,14 +179,18 @@ def uniqueName (t : TaskId) : SimM String := do
   let x ← getTask t
   pure (x.name ++ "@" ++ g.name)
 
-/-- Apply a `Task` API call; an exception aborts the run (state at the raise point kept). -/
-def taskCall (t : TaskId) (f : TaskS → TaskS.TRes) : SimM Unit := do
-  let x ← getTask t
-  let (x', e) := f x
-  setTask t x'
-  match e with
+/-- Re-raise the exception of a `Task` API call. -/
+def raiseTask : Option SErr → SimM Unit
   | none => pure ()
   | some err => throw err
+
+/-- Apply a `Task` API call other than `start`; an exception aborts the run (state at
+the raise point kept). -/
+def taskCall (t : TaskId) (c : TaskCall) : SimM Unit := do
+  let g ← getGraph t.g
+  let some x := g.task? t.t | throw .keyError
+  setGraph t.g (g.setTask t.t (x.call c).1)
+  raiseTask (x.call c).2
 
 /-- Create an event object (fresh identity). -/
 def mkEvent (etype : Nat) (time : Int) (tid : Option TaskId := none) (placement : Option PlacementS := none)
@@ -333,7 +337,7 @@ def placementSkip (time : Int) (p : PlacementS) (drop : Bool) : SimM (List SEven
     | some eid =>
       removeEvent eid
       modify fun s => { s with future := s.future.erase t }
-      taskCall t (·.doUnschedule)
+      taskCall t .unschedule
       logE (.unschedule t time)
     | none => pure ()
     return []
@@ -343,7 +347,7 @@ def placementEvents (time : Int) (p : PlacementS) : SimM (List SEvent) := do
   let t := p.task
   let x ← getTask t
   let doSchedule : SimM Unit := do
-    taskCall t (·.doSchedule time p)
+    taskCall t (.schedule time p)
     logE (.schedule t time (p.time.getD (-1)))
   if x.state.val < TState.scheduled.val then
     if p.isPlaced then
@@ -511,7 +515,7 @@ def handleTaskCancel (ev : SEvent) : SimM Unit := do
 def handleTaskRelease (ev : SEvent) : SimM Unit := do
   let some t := ev.tid | throw .attributeError
   let time := ev.ev.time
-  taskCall t (·.doRelease (some time))
+  taskCall t (.release (some time))
   logE (.release t time)
   let x ← getTask t
   let m := (← get).metas[t.g]?
@@ -548,7 +552,7 @@ def finishRemove (t : TaskId) (time : Int) : SimM Unit := do
   setPool pid (pool.removeTask (gid t)).1
   raiseOutcome (pool.removeTask (gid t)).2
   logE (.remove t pid time)
-  taskCall t (·.doFinish none)
+  taskCall t (.finish none)
   logE (.finish t time)
   modify fun s => { s with finishedTasks := s.finishedTasks + 1 }
 
@@ -604,40 +608,35 @@ def handleTaskFinished (ev : SEvent) : SimM Unit := do
   finishNotify t ev.ev.time
 
 /-- `__handle_task_placement`, the task is not ready to run: drop the placement of a
-cancelled task / graph, or retry after the parents' remaining time. Returns `true`
-when the placement was dealt with here. -/
-def placementNotReady (ev : SEvent) (t : TaskId) (p : PlacementS) : SimM Bool := do
+cancelled task / graph, or retry after the parents' remaining time. -/
+def placementNotReady (ev : SEvent) (t : TaskId) (p : PlacementS) : SimM Unit := do
   let time := ev.ev.time
   let g ← getGraph t.g
   let x ← getTask t
   let m := (← get).metas[t.g]?
   let ts := nstr ((m.map (·.timestamp)).getD 0)
-  if !g.isReadyToRun t.t then
-    if x.state == .cancelled || g.isCancelled then
-      modify fun s => { s with future := s.future.erase t }
-      if x.state != .cancelled then
-        let r := g.cancel t.t time
-        setGraph t.g r.g
-        if let some e := r.err then throw e
-        for c in r.cancelled do
-          logE (.cancel ⟨t.g, c⟩ time)
-          addEvent (← mkEvent ET.taskCancel time (tid := some ⟨t.g, c⟩))
-      return true
-    else
-      -- `max(parent.remaining_time for parent in parents)`: ValueError for a source
-      let mut rems : List Int := []
-      for pr in g.pars t.t do
-        let xp ← getTask ⟨t.g, pr⟩
-        rems := rems ++ [← liftE xp.remainingTime]
-      let some r0 := rems.head? | throw .valueError
-      let parentCompletion := rems.tail.foldl max r0
-      let nextT := time + max parentCompletion 1
-      let e ← mkEvent ET.taskPlacement nextT (tid := some t) (placement := some p)
-      modify fun s => { s with future := s.future.set t e.ev.eid }
-      addEvent e
-      row [istr time, "TASK_NOT_READY", x.name, ts, tlabel t, plabel (p.pool.getD 0)]
-      return true
-  return false
+  if x.state == .cancelled || g.isCancelled then
+    modify fun s => { s with future := s.future.erase t }
+    if x.state != .cancelled then
+      let r := g.cancel t.t time
+      setGraph t.g r.g
+      if let some e := r.err then throw e
+      for c in r.cancelled do
+        logE (.cancel ⟨t.g, c⟩ time)
+        addEvent (← mkEvent ET.taskCancel time (tid := some ⟨t.g, c⟩))
+  else
+    -- `max(parent.remaining_time for parent in parents)`: ValueError for a source
+    let mut rems : List Int := []
+    for pr in g.pars t.t do
+      let xp ← getTask ⟨t.g, pr⟩
+      rems := rems ++ [← liftE xp.remainingTime]
+    let some r0 := rems.head? | throw .valueError
+    let parentCompletion := rems.tail.foldl max r0
+    let nextT := time + max parentCompletion 1
+    let e ← mkEvent ET.taskPlacement nextT (tid := some t) (placement := some p)
+    modify fun s => { s with future := s.future.set t e.ev.eid }
+    addEvent e
+    row [istr time, "TASK_NOT_READY", x.name, ts, tlabel t, plabel (p.pool.getD 0)]
 
 /-- Re-raise the exception of `WorkerPool.place_task`. -/
 def raisePlace : Except PyErr Bool → SimM Bool
@@ -663,8 +662,17 @@ def placementRow (t : TaskId) (pid : Nat) (time : Int) (st : Strategy) : SimM Un
     | _ => throw .runtimeError
   row [istr time, "TASK_PLACEMENT", x.name, g.name, ts, tlabel t, plabel pid, istr st.runtime, vecStr pairs]
 
-/-- `__handle_task_placement`, the task is ready: place it and start it, or retry in 1 µs. -/
-def placementPlace (ev : SEvent) (t : TaskId) (p : PlacementS) : SimM Unit := do
+/-- `task.start(time, variance)` on the graph `g` whose readiness was just checked
+(`h`): the only place where a task becomes RUNNING. -/
+def startTask (t : TaskId) (g : GraphS) (_h : g.isReadyToRun t.t = true) (time fuzzed : Int) : SimM Unit := do
+  let some x := g.task? t.t | throw .keyError
+  setGraph t.g (g.setTask t.t (x.doStart time fuzzed).1)
+  raiseTask (x.doStart time fuzzed).2
+
+/-- `__handle_task_placement`, the task is ready (`h`, checked on `g`, the task's graph as
+it is now): place it and start it, or retry in 1 µs. -/
+def placementPlace (ev : SEvent) (t : TaskId) (p : PlacementS) (g : GraphS) (h : g.isReadyToRun t.t = true) :
+    SimM Unit := do
   let time := ev.ev.time
   let x ← getTask t
   let m := (← get).metas[t.g]?
@@ -679,7 +687,7 @@ def placementPlace (ev : SEvent) (t : TaskId) (p : PlacementS) : SimM Unit := do
     let some st := p.strat | throw .attributeError
     -- `task.start(time, variance)`: the fuzzed remaining time is a tape input
     let fuzzed ← liftTape drawFuzz
-    taskCall t (·.doStart time fuzzed)
+    startTask t g h time fuzzed
     logE (.start t time fuzzed pid)
     -- a task with no work left is never reported by `step`: its completion is notified here
     if (← liftE (← getTask t).remainingTime) == 0 then
@@ -696,8 +704,9 @@ def handleTaskPlacement (ev : SEvent) : SimM Unit := do
   let some t := ev.tid | throw .attributeError
   let some p := ev.placement | throw .attributeError
   if !(← get).future.has t then throw .assertionError
-  if ← placementNotReady ev t p then return
-  placementPlace ev t p
+  let g ← getGraph t.g
+  if h : g.isReadyToRun t.t = true then placementPlace ev t p g h
+  else placementNotReady ev t p
 
 def handleUpdateWorkload (ev : SEvent) : SimM Unit := do
   let s ← get
@@ -786,9 +795,8 @@ def step (dt : Int) : SimM Unit := do
         let t := ungid n
         let x ← getTask t
         if x.state != .running then continue
-        let (x', fin) := x.doStep now dt
-        setTask t x'
-        if fin then finished := finished ++ [t]
+        taskCall t (.step now dt)
+        if (x.doStep now dt).2 then finished := finished ++ [t]
   let mut evs : List SEvent := []
   for t in finished do
     evs := evs ++ [← mkEvent ET.taskFinished (now + dt) (tid := some t)]
